@@ -15,7 +15,8 @@ pub fn show_buf(pre: &[u8], buf: &[u8], r: Result<(), Error>) -> String {
             }
         }
         Err(e) => {
-            let dirty = if buf == pre { "" } else { "-dirty" };
+            // "-dirty": something was appended although the call failed; "-prefix-clobbered": the prior content itself changed
+            let dirty = if buf == pre { "" } else if buf.starts_with(pre) { "-dirty" } else { "-prefix-clobbered" };
             match e {
                 Error::InvalidJsonType => format!("err{}:InvalidJsonType", dirty),
                 Error::InvalidObject => format!("err{}:InvalidObject", dirty),
